@@ -2,7 +2,7 @@
    Statements only; proofs in Image/{KDTreeProofs,OctreeProofs,QuantizeProofs}.v. *)
 From Coq Require Import List NArith ZArith Bool.
 From SNT Require Import Base.Outcome Image.KDTree Image.Octree Image.Quantize
-     Image.KDTreeProofs Image.OctreeProofs Image.QuantizeProofs.
+     Image.KDTreeProofs Image.OctreeProofs Image.OctreeExact Image.QuantizeProofs Image.QuantizeExact.
 Import ListNotations.
 
 (* Nearest-colour lookup: for EVERY palette (any length >= 1, duplicates, clustered
@@ -51,6 +51,27 @@ Theorem C13_index_any_query : forall pal q i c,
   (i < N.of_nat (length pal))%N /\ nth_error pal (N.to_nat i) = Some c.
 Proof. exact kd_find_index. Qed.
 
+(* If the distinct colours fit max(k, 8) — in particular if they fit the requested
+   size k — the octree prunes nothing and the palette contains every colour. *)
+Theorem C13_palette_exact : forall (cs : list rgb) (k : N),
+  Forall (fun c => rgb_ok c = true) cs ->
+  (N.of_nat (length (nodup_rgb cs)) <= N.max k 8)%N ->
+  exists t pal,
+    oc_extend oc_new cs = Ok t /\ prune_until k t = Ok t /\ build_palette t = Ok pal /\
+    forall c, In c cs -> In c pal.
+Proof. exact palette_exact. Qed.
+
+(* An image whose distinct colours fit the palette and that is below the
+   subsampling threshold is reproduced exactly, with or without dithering:
+   pal[q[r][c]] = im[r][c] for every pixel. *)
+Theorem C13_exact : forall (im : img) (k : N) (dither : bool),
+  img_ok im -> (1 <= k)%N ->
+  (distinct_colors im <= N.max k 8)%N -> (sample_of im k < 2)%N ->
+  exists pal q,
+    quantize im k dither = Ok (pal, q) /\
+    Forall2 (Forall2 (fun p i => nth_error pal (N.to_nat i) = Some p)) im q.
+Proof. exact quantize_exact. Qed.
+
 Check C13_nearest : forall (pal : list rgb) (q : rgb), pal <> [] ->
   exists i c, kd_find (build pal) q = Ok (i, c) /\ is_nearest pal q i c.
 
@@ -65,6 +86,11 @@ Example C13_palette_nonvacuous :
    let* t := oc_extend oc_new cs in let* t' := prune_until 8 t in build_palette t')
   = Ok [(0, 0, 0); (255, 255, 255)]%N.
 Proof. vm_compute. reflexivity. Qed.
+
+Example C13_exact_nonvacuous :
+  (distinct_colors [[(1,2,3); (200,2,3)]; [(1,2,3); (7,7,7)]]%N <= N.max 2 8)%N /\
+  (sample_of [[(1,2,3); (200,2,3)]; [(1,2,3); (7,7,7)]]%N 2 < 2)%N.
+Proof. split; [apply N.leb_le; vm_compute; reflexivity|apply N.ltb_lt; vm_compute; reflexivity]. Qed.
 
 Example C13_quantize_nonvacuous :
   img_ok [[(1,2,3); (200,2,3)]; [(1,2,3); (7,7,7)]]%N /\
